@@ -126,6 +126,10 @@ class FortranRegularExpressions:
     DEFINED: Pattern = compile(
         r"defined[ ]*(?:\([ ]*([a-z_]\w*)[ ]*\)|([a-z_]\w*))", I
     )
+    PP_EVAL_SAFE: Pattern = compile(
+        r"(?:\s|\d|\b(?:True|False|and|or|not)\b|[=!<>]=|<(?!<)|>(?!>)|\*(?!\*)"
+        r"|[-+/%()])*"
+    )
     PP_REGEX: Pattern = compile(r"[ ]*#[ ]*(if |ifdef|ifndef|else|elif|endif)", I)
     PP_DEF: Pattern = compile(
         r"[ ]*#[ ]*(define|undef|undefined)[ ]*(\w+)(\([ ]*([ \w,]*?)[ ]*\))?",
